@@ -18,6 +18,18 @@
 (C) thorough tier: real OS processes racing on one build-id (uploaders with differing payloads,
     some killed / faulted at a seed-chosen operation, mirroring downloaders) with a reader process
     polling both archives; same reader invariants.
+(C') both tiers, code -> spec trace validation: rounds of real OS processes (uploaders of packages and
+    metadata, cache-mirroring downloaders, readers, some killed / faulted at a seed-chosen operation)
+    race on one build-id; every process records the call and the return of each of its archive
+    file-system operations (checks/c09_trace.py: per-process sequence number + global ticket from a
+    flock'ed counter file, never wall-clock time).  specs/TraceArchivePublish.tla re-uses the actions
+    of ArchivePublish, lets each operation take effect between its call and its return event, binds
+    the logged fields (process, artifact name, won/lost, present/absent, inode seen, sizes) and TLC
+    evaluates every P invariant on every state of the matched behaviours.  An invariant violated on
+    a real trace, or the independent oracles (polling reader, content of what the readers / mirrors
+    extracted, owner of the final inodes) failing => violation; a trace the mechanism model rejects
+    without that => model_drift.  Self-test in every run: copies of an accepted trace with a flipped
+    publish result / a dropped event / a flipped exists result must be rejected.
 
 Verdict (P layer, oracle independent of the mechanism model): see SIGNATURES.  Disagreement between
 the real operation sequence and the model (M) that leaves P intact is model_drift.
@@ -51,6 +63,14 @@ SIGNATURES = {
     "failed-upload-left-artifact": "an upload that reported failure left something under the artifact name",
     "partial-metadata-visible": "a metadata file under its name is not one of the complete contents",
     "reader-got-invalid-artifact": "a Bob download of a present artifact failed or produced wrong content",
+    # P invariants of ArchivePublish evaluated by TLC on the states of a validated trace of real racing processes
+    "trace-invariant:Atomic": "real trace: an inode that did not receive all bytes of its payload is linked under an artifact name",
+    "trace-invariant:NoTempUnderName": "real trace: a file that is still open for writing is linked under an artifact name",
+    "trace-invariant:NeverOverwrite": "real trace: the inode under a package name was replaced by a later publish operation",
+    "trace-invariant:FailedLeavesNothing": "real trace: a writer that failed / was killed before publishing owns the inode under a name",
+    "trace-invariant:ReaderOK": "real trace: a reader opened an inode that was not complete and closed",
+    "trace-invariant:NoTempLeft": "real trace: a writer that ended regularly (done / skipped / lost race) left its temporary name behind",
+    "trace-invariant:MirrorFaithful": "real trace: the cache mirror published something that is not a copy of an uploaded payload",
 }
 
 PKG, META = ".tgz", ".buildid"
@@ -1065,6 +1085,279 @@ def race_task(arg):
 
 
 # ----------------------------------------------------------------------------------------------
+# (C') trace validation: the same kind of race, every process recorded, the merged trace validated by TLC
+
+def _tree_matches(w, ws):
+    tree = read_tree(ws) if os.path.isdir(ws) else {}
+    for u, p in w.payload.items():
+        if p and all(tree.get(rel) == data for rel, data in p["files"].items()) and len(tree) == len(p["files"]) + 1:
+            with open(p["audit"], "rb") as f:
+                if tree.get("audit.json.gz") == f.read():
+                    return u
+    return None
+
+
+def _trace_child(proc, role, arch, kind, w, work, plan, jseed, barrier, rv, opts):
+    """forked child: one real upload / mirroring download / some reads, recorded by checks.c09_trace.Recorder"""
+    from bob import archive as A
+    from bob import tty
+    from checks import c09_trace as T
+    rc = 0
+    try:
+        names = {w.name(a, k): (a, k) for a in ("A", "B") for k in ("pkg", "meta")}
+        rec = T.Recorder(proc, role, work, w.roots, names, plan=plan, jitter=random.Random(jseed), rendezvous=rv)
+        rec.install(A)
+        a = A.getSingleArchiver(None, w.spec(arch))
+        sys.stderr = open(os.devnull, "w")
+        barrier.wait()
+    except BaseException:
+        os._exit(4)
+    try:
+        if role == "up":
+            s = rec.pair_begin("Start", a=arch, k=kind)
+            rec.pair_end("Start", s, a=arch, k=kind)
+            try:
+                if kind == "pkg":
+                    r = a._uploadPackage(w.bid, PKG, w.payload[proc]["audit"], w.payload[proc]["content"])
+                else:
+                    r = a._uploadLocalFile(w.bid, META, w.meta[proc])
+                rec.note(role=role, result=repr(r)[:120], failed=bool(isinstance(r, tuple) and r[-1] == tty.ERROR))
+            except BaseException as e:
+                rec.note(role=role, result="%s: %s" % (type(e).__name__, str(e)[:100]), failed=True)
+        elif role == "mirror":
+            if opts.get("waitsrc"):      # harness-level wait (not Bob code, not traced): only shapes the schedule
+                for _ in range(2000):
+                    if os.path.exists(w.name("A", "pkg")):
+                        break
+                    time.sleep(0.001)
+            ws = os.path.join(work, "ws_" + proc)
+            c = A.getSingleArchiver(None, w.spec("B"))
+            caches = [x for x in [a, c] if (x is not a) and x.canCache()]
+            try:
+                ret = a._downloadPackage(w.bid, PKG, os.path.join(ws, "audit.json.gz"), os.path.join(ws, "content"), caches, ws)
+                ok = bool(ret[0]) and _tree_matches(w, ws) is not None
+                rec.note(role=role, found=rec.found, ok=ok, result=repr(ret)[:120])
+            except BaseException as e:
+                rec.note(role=role, found=rec.found, ok=False, result="%s: %s" % (type(e).__name__, str(e)[:100]))
+        else:
+            hits = 0
+            for i, nm in enumerate(opts["names"]):
+                rec.proc, rec.rread, rec.found = nm, None, None
+                if i:                    # harness-level wait (not traced): later attempts find something to read
+                    for _ in range(1500):
+                        if os.path.exists(w.name(arch, kind)):
+                            break
+                        time.sleep(0.001)
+                ws = os.path.join(work, "ws_" + nm)
+                try:
+                    if kind == "pkg":
+                        ret = a._downloadPackage(w.bid, PKG, os.path.join(ws, "audit.json.gz"), os.path.join(ws, "content"), [], ws)
+                        ok = bool(ret[0]) and _tree_matches(w, ws) is not None
+                    else:
+                        ret = a._downloadLocalFile(w.bid, META)
+                        ok = ret[0] is not None and ret[0] in set(w.meta.values())
+                    result = repr(ret)[:120]
+                except BaseException as e:
+                    ok, result = False, "%s: %s" % (type(e).__name__, str(e)[:100])
+                if rec.rread is not None:
+                    rec.pair_end("RRead", rec.rread, res="ok" if ok else "bad")
+                rec.note(role=role, found=rec.found, ok=ok, result=result, name=[arch, kind])
+                if rec.found:
+                    hits += 1
+                    if hits >= opts.get("hits", 1):
+                        break
+                else:
+                    time.sleep(0.0005)
+    except BaseException:
+        rc = 3
+    os._exit(rc)
+
+
+def trace_round(arg):
+    """one round of real processes on one build-id, all recorded -> spec-level trace + verdicts of the independent oracles"""
+    rnd, seed, keep = arg
+    common.use_repo()
+    from checks import c09_trace as T
+    ctx = mp.get_context("fork")
+    work = common.scratch("vf-c09v-")
+    out = {"rnd": rnd, "violations": [], "nontrivial": [], "evaluations": 0}
+    try:
+        rng = random.Random(seed * 7919 + rnd * 31 + 5)
+        forced = rnd == 0          # round 0: two uploaders meet right before their link() -> one must lose
+        nup = 2 if forced else rng.randrange(2, 6)
+        ups = ["U%d" % j for j in range(1, nup + 1)]
+        cls0 = rng.choice(CLASSES)
+        classes = [cls0 if j < 2 else rng.choice(CLASSES) for j in range(nup)]
+        if rnd % 8 == 1:           # packed size just above the extractor's first read (cf. SOLO "mirror-edge"): the mirror must drain
+            classes = [("edge512", 5)] * nup
+        w = World(work, seed, 200000 + rnd, ups, classes=classes, filemode=0o640)
+        w.references(fsint.Interposer())
+        os.makedirs(os.path.join(work, "ev"))
+        T.Ticket.create(os.path.join(work, "ticket"))
+        names = {(a, k): w.name(a, k) for a in ("A", "B") for k in ("pkg", "meta")}
+        roster = []            # (proc, role, arch, kind, plan, opts)
+        for j, u in enumerate(ups):
+            r = rng.random()
+            kind = "pkg" if j < 2 or r < 0.6 else "meta"
+            arch = "A" if j < 2 or rng.random() < 0.6 else "B"
+            plan = None
+            if j >= 1 and not forced and rng.random() < 0.35:
+                mode = rng.choice(["kill", "fault"])
+                ops = [o for o in (T.KILLABLE if mode == "kill" else T.FAULTABLE)
+                       if o != ("Replace" if kind == "pkg" else "Link") and not (kind == "meta" and o == "Exists")]
+                plan = (mode, rng.choice(ops), rng.randrange(0, 3))
+            roster.append((u, "up", arch, kind, plan, {}))
+        nmir = 2 if forced else rng.randrange(1, 4)
+        for j in range(nmir):
+            plan = None
+            if not forced and rng.random() < 0.25:
+                mode = rng.choice(["kill", "fault"])
+                plan = (mode, rng.choice([o for o in (T.KILLABLE if mode == "kill" else T.FAULTABLE) if o != "Replace"]), rng.randrange(0, 3))
+            roster.append(("M%d" % (j + 1), "mirror", "A", "pkg", plan, {"waitsrc": j == 0 or rng.random() < 0.5}))
+        rd = [("A", "pkg"), ("B", "pkg"), ("A", "meta") if any(r[3] == "meta" and r[2] == "A" for r in roster) else ("B", "pkg")]
+        for j, (arch, kind) in enumerate(rd):
+            roster.append(("R%d" % (3 * j + 1), "reader", arch, kind, None,
+                           {"names": ["R%d" % (3 * j + i) for i in (1, 2, 3)], "hits": 2 if j == 1 else 1}))
+        barrier = ctx.Barrier(len(roster))
+        meet = ctx.Barrier(2) if forced else None
+        stop = ctx.Event()
+        q = ctx.Queue()
+        poller = ctx.Process(target=_race_reader, args=(names, w.ref, set(w.meta.values()), stop, q))
+        poller.start()
+        procs = []
+        for j, (proc, role, arch, kind, plan, opts) in enumerate(roster):
+            rv = ("Link", meet) if (forced and role == "up") else None
+            p = ctx.Process(target=_trace_child, args=(proc, role, arch, kind, w, work, plan, seed * 131 + rnd * 17 + j, barrier, rv, opts))
+            p.start()
+            procs.append(p)
+        for p, r in zip(procs, roster):
+            p.join(600)
+            if p.is_alive():
+                p.kill()
+                raise RuntimeError("trace child did not terminate")
+            if p.exitcode not in (0, 137) or (p.exitcode == 137 and not (r[4] and r[4][0] == "kill")):
+                raise RuntimeError("trace child %s ended with status %s" % (r[0], p.exitcode))
+        stop.set()
+        res = q.get(timeout=600)
+        poller.join(600)
+        out["evaluations"] = res["reads"]
+        for b in res["bad"]:
+            out["violations"].append((b[0], {"round": rnd, "observation": b, "roster": roster, "classes": classes}))
+        recs, notes = T.load_round(os.path.join(work, "ev"))
+        role = {}
+        for (proc, r, arch, kind, plan, opts) in roster:
+            role[proc] = r
+            for nm in opts.get("names", []):
+                role[nm] = r
+        full = {}
+        for (proc, r, arch, kind, plan, opts) in roster:
+            if r == "up":
+                full[proc] = len(w.ref[proc]) if kind == "pkg" else len(w.meta[proc])
+        events, nf, nc, info = T.project(recs, full, role)
+        out["trace"] = {"ev": events, "nf": nf, "nc": nc}
+        out["info"] = info
+        out["raw_events"] = len(recs)
+        # independent oracles on what the processes themselves got
+        planned = {r[0] for r in roster if r[4]}
+        for n in notes:
+            if n.get("role") in ("mirror", "reader") and n.get("found") and not n.get("ok") and n["p"] not in planned:
+                out["violations"].append(("reader-got-invalid-artifact", {"round": rnd, "by": n["p"], "role": n["role"], "result": n.get("result"),
+                                                                         "roster": roster, "classes": classes}))
+            out["evaluations"] += 1
+        # a process that never got a successful publish operation back owns nothing under a name
+        created = {}
+        for r in recs:
+            if r["ph"] == "ret" and r["op"] == "MkTemp" and "ino" in r:
+                created.setdefault(r["ino"], []).append((r["t"], r["p"]))
+        pubs = {r["p"] for r in recs if r["ph"] == "ret" and ((r["op"] == "Link" and r.get("res") == "won") or (r["op"] == "Replace" and "exc" not in r))}
+        failed = {n["p"] for n in notes if n.get("failed")}
+        for key, path in names.items():
+            try:
+                ino = os.stat(path).st_ino
+            except FileNotFoundError:
+                continue
+            owners = created.get(ino, [])
+            if owners and not any(p in pubs for _, p in owners):
+                by = max(owners)[1]
+                out["violations"].append(("failed-upload-left-artifact" if by in failed else "partial-artifact-visible",
+                                          {"round": rnd, "name": key, "by": by, "why": "under the name without a successful publish operation",
+                                           "roster": roster}))
+        clean_up = [r for r in roster if r[1] == "up" and r[2] == "A" and r[3] == "pkg" and r[4] is None]
+        if clean_up and ("A", "pkg") not in [tuple(x) for x in res["seen"]]:
+            out["violations"].append(("partial-artifact-visible", {"round": rnd, "why": "successful uploads but nothing under the name"}))
+        nt = {"trace:%s%s" % (r[1], (":%s@%s" % (r[4][0], r[4][1])) if r[4] else "") for r in roster}
+        nt |= {"trace-seen:%s/%s" % tuple(x) for x in res["seen"]}
+        nt |= {"trace:%s" % k for k in ("lost", "skipped", "notfound", "reads", "stop") if info.get(k)}
+        out["nontrivial"] = sorted(nt)
+        out["roster"] = [(r[0], r[1], r[2], r[3], r[4]) for r in roster]
+    finally:
+        if not keep:
+            shutil.rmtree(work, ignore_errors=True)
+    return out
+
+
+def trace_validation(a, rep, viol_counts, quick):
+    """(C') record rounds of real racing processes and let TLC validate the traces against TraceArchivePublish"""
+    from checks import c09_trace as T
+    nrounds = max(2, int((12 if quick else 160) * a.scale))
+    budget = float(os.environ.get("VF_C09_TRACE_BUDGET", "12" if quick else "400"))
+    t0 = time.time()
+    rounds = []
+    for rnd in range(nrounds):
+        r = trace_round((rnd, a.seed, a.keep))
+        rounds.append(r)
+        collect(rep, r, viol_counts, "traced process race round %d" % r["rnd"])
+        if time.time() - t0 > budget and len(rounds) >= 2:
+            break
+    traces = [r["trace"] for r in rounds]
+    # binding self-test: corrupted copies of round 0's trace (which has a lost publish race) ride in the same TLC run
+    muts = T.corruptions(traces[0])
+    allv = T.validate(traces + [m for _, m in muts], rep)
+    verdicts, mv = allv[:len(traces)], allv[len(traces):]
+    accepted = rejected = 0
+    tot = {}
+    for r, v in zip(rounds, verdicts):
+        for k, n in r["info"].items():
+            tot[k] = tot.get(k, 0) + n
+        if v["violated"]:
+            # an invariant / action property of the P layer failed on a state of a behaviour matched to a real trace
+            sig = "trace-invariant:" + v["violated"]
+            viol_counts[sig] = viol_counts.get(sig, 0) + 1
+            if viol_counts[sig] == 1:
+                rep.violation(sig, {"round": r["rnd"], "roster": r["roster"], "cex_tail": v["cex"], "meaning": SIGNATURES.get(sig),
+                                    "events": r["trace"]["ev"][:300]})
+        elif v["matched"] == v["len"]:
+            accepted += 1
+            rep.traces += 1
+        else:
+            rejected += 1
+            ev = r["trace"]["ev"]
+            rep.model_drift("traced round %d: event %d of %d not accepted by TraceArchivePublish: %s (after %s)" % (
+                r["rnd"], v["matched"] + 1, v["len"], {k: x for k, x in ev[v["matched"]].items() if x not in ("-", "?")},
+                [(e["p"], e["ph"], e["op"]) for e in ev[max(0, v["matched"] - 4):v["matched"]]]))
+    st = None
+    if muts and not verdicts[0]["violated"] and verdicts[0]["matched"] == verdicts[0]["len"]:
+        st = T.judge_corruptions(0, traces[0], muts, mv)
+    elif accepted:
+        st = T.selftest(traces, verdicts)        # round 0 was not accepted: take another accepted trace (extra TLC run)
+    if st is None and not rep.violations and not rejected:
+        raise RuntimeError("trace validation: no trace was accepted")
+    rep.extra["trace_validation"] = {
+        "rounds": len(rounds), "accepted": accepted, "rejected_by_mechanism_model": rejected,
+        "invariant_violations": sum(1 for v in verdicts if v["violated"]),
+        "events": sum(len(t["ev"]) for t in traces), "raw_records": sum(r["raw_events"] for r in rounds),
+        "processes": sum(len(r["roster"]) for r in rounds), "features": tot, "selftest": st, "wall_s": round(time.time() - t0, 1)}
+    if accepted:
+        r = next(r for r, v in zip(rounds, verdicts) if not v["violated"] and v["matched"] == v["len"])
+        rep.sample({"validated_trace_of_round": r["rnd"], "roster": r["roster"],
+                    "events": [[e["p"], e["ph"], e["op"]] + [e[k] for k in ("a", "k", "res", "saw", "at") if e[k] not in ("-", "?")] + ([e["n"]] if e["n"] != 1 else [])
+                               for e in r["trace"]["ev"][:120]]})
+        rep.sample({"trace_binding_selftest": st})
+    if quick is not None and accepted and not tot.get("lost") and a.scale >= 1.0:
+        raise RuntimeError("trace vacuity: no lost publish race in any traced round")
+
+
+# ----------------------------------------------------------------------------------------------
 
 ACTIONS = ["Start", "Exists", "MkTemp", "Write", "Close", "Chmod", "Link", "Replace", "Unlink", "EClose", "EUnlink",
            "MOpen", "ROpen", "RRead", "Fault", "Crash"]
@@ -1084,6 +1377,8 @@ def main():
         ap.add_argument("--only-replay", action="store_true",
                         help="development aid: skip the exhaustive TLC runs (A); level drops to exploration")
         ap.add_argument("--scale", type=float, default=1.0, help="development aid: multiplier for the number of behaviours")
+        ap.add_argument("--only-trace", action="store_true",
+                        help="development aid: only (C') trace validation of real process races; level drops to exploration")
     a = common.args(PROP, more)
     rep = evidence.Report(PROP, a.tier, a.seed)
     quick = a.tier == "quick"
@@ -1100,9 +1395,24 @@ def main():
         "the gzip header MTIME field (wall clock of the upload) is masked when comparing with the solo-upload payload",
         "file-system effects of bob.archive on a file archive are issued through os/open/NamedTemporaryFile names of its module namespace",
         "caches for a download are derived as MultiArchive.downloadPackage does (archives other than the source with the 'cache' flag)",
+        "trace validation: an operation takes effect between its recorded call and return; the order of the records is the order of "
+        "tickets drawn from one counter file under flock (both records of every operation), never wall-clock time; operations with "
+        "overlapping intervals are tried in every order that agrees with their logged results",
+        "trace validation: inode numbers identify the file a writer created (an inode found under a name is attributed to its latest "
+        "creator that published there); 'complete' = bytes written equal the size of the solo reference upload (uploaders) or st_size "
+        "of the opened source (mirrors); writes between the first and the completing one are stuttering steps",
     ]
     if a.replay:
         return do_replay(a, rep)
+    if a.only_trace:
+        common.use_repo()
+        import bob.archive  # noqa: F401
+        vc = {}
+        trace_validation(a, rep, vc, quick)
+        rep.extra["violation_counts"] = vc
+        rep.level = "exploration"
+        sweep_scratch()
+        return rep.finish()
 
     # (A) exhaustive design check + vacuity configs run in a side process while (B) generates and replays
     gens = [("ArchivePublish_gen_race.cfg", 500 if quick else 5000, 40), ("ArchivePublish_gen.cfg", 500 if quick else 5000, 40),
@@ -1286,6 +1596,7 @@ def replay_all(a, rep, hists, quick):
         rep.extra["real_fs_ops_stepped"] = nops
         rep.extra["behaviours_replayed"] = rep.traces
         rep.extra["replay_cut_by_budget_s"] = budget if cut else None
+    trace_validation(a, rep, viol_counts, quick)
     if not quick:
         rounds = [(rnd, a.seed, 8, a.keep) for rnd in range(max(4, int(60 * a.scale)))]
         nr, t0 = 0, time.time()
